@@ -32,9 +32,27 @@ type onceVec struct {
 	NP   int        `json:"np"`
 	Plan [][]string `json:"plan"`
 	// Zero: the keys for which the constructor returns the zero value of V.
-	Zero  []string   `json:"zero"`
+	Zero []string `json:"zero"`
+	// Panic: the keys whose constructor invocation panics.  Stuck: the
+	// processes the model leaves blocked for good in a Get of such a key.
+	Panic []string   `json:"panic"`
+	Stuck []int      `json:"stuck"`
 	Steps []onceStep `json:"steps"`
 }
+
+func (v *onceVec) isPanic(k string) bool {
+	for _, z := range v.Panic {
+		if z == k {
+			return true
+		}
+	}
+	return false
+}
+
+// constructorPanic is what the harness's constructor panics with.
+type constructorPanic struct{ key string }
+
+func (c constructorPanic) Error() string { return "c17: the constructor for " + c.key + " panics" }
 
 func (v *onceVec) isZero(k string) bool {
 	for _, z := range v.Zero {
@@ -72,6 +90,7 @@ type onceInst interface {
 	replay(v *onceVec, wait time.Duration) outcome
 	raceRound(round int, seedRng *rand.Rand, res *vh.Result) (gets, nkeys int, err error)
 	stressRound(round int, seedRng *rand.Rand, clock *atomic.Int64, tr *vh.Trace, res *vh.Result) (gets int, err error)
+	panicRound(round int, seedRng *rand.Rand, clock *atomic.Int64, tr *vh.Trace, res *vh.Result, tag string) (gets int, err error)
 }
 
 func (in inst[K, V]) instName() string { return in.name }
@@ -80,6 +99,9 @@ func (in inst[K, V]) replay(v *onceVec, wait time.Duration) outcome {
 }
 func (in inst[K, V]) raceRound(round int, seedRng *rand.Rand, res *vh.Result) (int, int, error) {
 	return raceOnceRound(in, round, seedRng, res)
+}
+func (in inst[K, V]) panicRound(round int, seedRng *rand.Rand, clock *atomic.Int64, tr *vh.Trace, res *vh.Result, tag string) (int, error) {
+	return panicRound(in, round, seedRng, clock, tr, res, tag)
 }
 func (in inst[K, V]) stressRound(round int, seedRng *rand.Rand, clock *atomic.Int64, tr *vh.Trace, res *vh.Result) (int, error) {
 	return stressOnceRound(in, round, seedRng, clock, tr, res)
@@ -177,6 +199,9 @@ var (
 			}
 			return -1
 		}}
+	// V = int with non-zero results: a bogus zero would be a plausible-looking value
+	instInt = inst[string, int]{name: "OnceConstructor[string, int]", key: ident, str: ident,
+		mk: func(id int) int { return id }, id: func(x int) int { return x }}
 	instIntKey = inst[int, *int]{name: "OnceConstructor[int, *int]", key: keyInt, str: strInt, mk: mkPtr, id: idPtr}
 
 	// V = any holding FUNCTION values: func() any (the loader's own type for
@@ -246,10 +271,10 @@ var (
 )
 
 // instNames lists the instantiations; "cycle" picks one per schedule.
-var instNames = []string{"ptr", "anyfn", "error", "fn", "any", "box", "intkey", "chan", "map"}
+var instNames = []string{"ptr", "anyfn", "error", "int", "fn", "any", "box", "intkey", "chan", "map"}
 
 var instByName = map[string]onceInst{"ptr": instPtr, "error": instErr, "any": instAny, "intkey": instIntKey,
-	"anyfn": instAnyFn, "fn": instFn, "box": instBox, "chan": instChan, "map": instMap}
+	"int": instInt, "anyfn": instAnyFn, "fn": instFn, "box": instBox, "chan": instChan, "map": instMap}
 
 // replayOnce forces one schedule on a fresh OnceConstructor of the named instantiation.
 func replayOnce(v *onceVec, wait time.Duration, which string) outcome {
@@ -315,7 +340,14 @@ type onceRun[K comparable, V any] struct {
 	// res[p]: the values p's Gets returned so far (written by p, read by the
 	// controller only while p is parked or finished).
 	res [][]V
-	log []string
+	// how[p][i]: how p's i-th Get ended: "ret" or "panic" (the constructor's
+	// panic surfaced) or "panic:<other value>".  Same discipline as res.
+	how [][]string
+	// ended[p]: number of Gets of p that have ended (guarded by mu; read by
+	// the controller also while p runs); failedKeys: keys whose constructor panicked.
+	ended      []int
+	failedKeys map[string]bool
+	log        []string
 	// fnCalls0: userFnInvoked when the run started
 	fnCalls0 int64
 }
@@ -325,6 +357,9 @@ func pname(p int) string { return "p" + strconv.Itoa(p) }
 func newOnceRun[K comparable, V any](v *onceVec, in inst[K, V]) *onceRun[K, V] {
 	r := &onceRun[K, V]{v: v, c: newCtl(), in: in, entered: map[string]int{}, exited: map[string]int{}, ptrs: map[string][]V{}}
 	r.res = make([][]V, v.NP+1)
+	r.how = make([][]string, v.NP+1)
+	r.ended = make([]int, v.NP+1)
+	r.failedKeys = map[string]bool{}
 	r.oc = syncutil.NewOnceConstructor(func(kk K) V {
 		k := in.str(kk)
 		r.mu.Lock()
@@ -336,6 +371,12 @@ func newOnceRun[K comparable, V any](v *onceVec, in inst[K, V]) *onceRun[K, V] {
 		// The model draws a fresh value id per constructor call; for the keys
 		// in Zero the constructor returns the zero value of V instead.
 		r.seq++
+		if v.isPanic(k) {
+			// the invocation counts, yields no value, and ends by panicking
+			r.exited[k]++
+			r.failedKeys[k] = true
+			panic(constructorPanic{k})
+		}
 		var x V
 		if !v.isZero(k) {
 			x = in.mk(r.seq)
@@ -345,6 +386,32 @@ func newOnceRun[K comparable, V any](v *onceVec, in inst[K, V]) *onceRun[K, V] {
 		return x
 	})
 	return r
+}
+
+// get calls Get(k) and reports how it ended; a panic is recovered here, in the
+// caller of Get, as an application would.
+func (r *onceRun[K, V]) get(k string) (x V, how string) {
+	defer func() {
+		if pv := recover(); pv != nil {
+			var zero V
+			x = zero
+			if cp, ok := pv.(constructorPanic); ok && cp.key == k {
+				how = "panic"
+			} else {
+				how = fmt.Sprintf("panic:%v", pv)
+			}
+		}
+	}()
+	return r.oc.Get(r.in.key(k)), "ret"
+}
+
+// pendingKeyFailed reports whether p is inside a Get of a key whose
+// constructor invocation panicked (such a Get may stay blocked for good).
+func (r *onceRun[K, V]) pendingKeyFailed(p int) bool {
+	r.mu.Lock()
+	defer r.mu.Unlock()
+	plan := r.v.Plan[p-1]
+	return r.ended[p] < len(plan) && r.failedKeys[plan[r.ended[p]]]
 }
 
 // consSnapshot returns the constructor calls that have completed, per key.
@@ -403,8 +470,12 @@ func replayOnceG[K comparable, V any](v *onceVec, wait time.Duration, in inst[K,
 				if i > 0 {
 					s.Gate("next")
 				}
-				x := r.oc.Get(in.key(k))
+				x, how := r.get(k)
 				r.res[p] = append(r.res[p], x)
+				r.how[p] = append(r.how[p], how)
+				r.mu.Lock()
+				r.ended[p]++
+				r.mu.Unlock()
 			}
 		})
 		if len(v.Plan[p-1]) > 0 {
@@ -419,6 +490,11 @@ func replayOnceG[K comparable, V any](v *onceVec, wait time.Duration, in inst[K,
 	hangVerdict := func(p int, st onceStep) (bool, string) {
 		k := curKey[p]
 		prog := r.inProgress()
+		if r.pendingKeyFailed(p) {
+			// the constructor for this key panicked: staying blocked is what the
+			// code does and the property accepts
+			return false, ""
+		}
 		if prog[k] {
 			// Waiting for a construction of the same key in progress is
 			// something the property allows; only the model's step structure differs.
@@ -504,7 +580,11 @@ steps:
 				diverged = fmt.Sprintf("step %d: p%d returned %d results, model %d", i+1, st.P, len(rs), callsDone[st.P])
 				break steps
 			}
-			if x := rs[len(rs)-1]; in.id(x) != st.Val {
+			if how := r.how[st.P][len(rs)-1]; (st.Val == -1) != (how != "ret") {
+				diverged = fmt.Sprintf("step %d: Get of p%d ended by %s, model value #%d", i+1, st.P, how, st.Val)
+				break steps
+			}
+			if x := rs[len(rs)-1]; st.Val != -1 && in.id(x) != st.Val {
 				// decided below by the API-level check on identity
 				diverged = fmt.Sprintf("step %d: p%d returned %v, model value #%d", i+1, st.P, deref(in.id(x)), st.Val)
 				break steps
@@ -526,14 +606,32 @@ steps:
 		return o
 	}
 
-	// Free run to the end: every gate opens, every constructor returns.
-	if err := s.Release(wait); err != nil {
-		if o.class == "" {
-			o.class = "hang"
-			o.what = "Get does not return although every constructor has returned (" + err.Error() + ")"
+	// Free run to the end: every gate opens, every constructor returns (or panics).
+	relWait := wait
+	if len(v.Panic) > 0 {
+		// Gets of a key whose constructor panicked may stay blocked for good:
+		// do not wait for those (each is polled below).
+		relWait = 300 * time.Microsecond
+	}
+	if err := s.Release(relWait); err != nil {
+		stuck := ""
+		for p := 1; p <= v.NP && len(v.Panic) > 0; p++ {
+			if st, _ := s.Poll(pname(p), peek); st == sched.Done || r.pendingKeyFailed(p) {
+				continue
+			}
+			if st, _ := s.Poll(pname(p), wait); st != sched.Done && !r.pendingKeyFailed(p) {
+				stuck = pname(p)
+				break
+			}
 		}
-		o.detail = map[string]any{"schedule": v, "log": r.log, "diverged": diverged}
-		return o
+		if len(v.Panic) == 0 || stuck != "" {
+			if o.class == "" {
+				o.class = "hang"
+				o.what = "Get does not return although every constructor has returned (" + err.Error() + ")"
+			}
+			o.detail = map[string]any{"schedule": v, "log": r.log, "diverged": diverged}
+			return o
+		}
 	}
 	if o.class == "" {
 		// API-level observables of C17 on the finished run.
@@ -569,7 +667,7 @@ func sliceFirst(a []string) string {
 func deref(id int) any {
 	switch {
 	case id == 0:
-		return "the zero value (nil)"
+		return "the zero value of V"
 	case id < 0:
 		return "a foreign value"
 	}
@@ -584,17 +682,40 @@ func (r *onceRun[K, V]) apiCheck() (class, what string) {
 	if n := userFnInvoked.Load() - r.fnCalls0; n != 0 {
 		return "violation", fmt.Sprintf("the library invoked a constructed VALUE %d times: the value the constructor returned is a function and must only be stored and returned (%s)", n, r.in.name)
 	}
+	for k, n := range r.exited {
+		if n > 1 {
+			note := r.zeroNote(k)
+			if r.failedKeys[k] {
+				note = "; the constructor panics for this key and must not be invoked again"
+			}
+			return "violation", fmt.Sprintf("the constructor was invoked %d times for key %q (%s%s)", n, k, r.in.name, note)
+		}
+	}
 	for p := 1; p <= r.v.NP; p++ {
 		plan := r.v.Plan[p-1]
 		if pv := r.c.s.PanicOf(pname(p)); pv != nil {
 			return "violation", fmt.Sprintf("Get panicked: %v", pv)
 		}
-		if len(r.res[p]) != len(plan) {
-			return "violation", fmt.Sprintf("p%d: %d of %d Gets returned", p, len(r.res[p]), len(plan))
+		ended := r.ended[p]
+		if ended < len(plan) && !r.failedKeys[plan[ended]] {
+			return "violation", fmt.Sprintf("p%d: %d of %d Gets returned", p, ended, len(plan))
 		}
-		for i, k := range plan {
+		for i, k := range plan[:ended] {
+			how := r.how[p][i]
 			if n := r.exited[k]; n != 1 {
 				return "violation", fmt.Sprintf("the constructor was invoked %d times for key %q (%s%s)", n, k, r.in.name, r.zeroNote(k))
+			}
+			if r.failedKeys[k] {
+				// The only invocation of the constructor for k panicked: there is no
+				// value.  The Get that ran it ends with that panic; no Get may return.
+				if how == "ret" {
+					return "violation", fmt.Sprintf("Get(%q) #%d of p%d returned %v although the only invocation of the constructor for %q panicked: a value the constructor never returned (%s)",
+						k, i+1, p, deref(r.in.id(r.res[p][i])), k, r.in.name)
+				}
+				continue
+			}
+			if how != "ret" {
+				return "violation", fmt.Sprintf("Get(%q) #%d of p%d ended by %s although the constructor for %q returned normally (%s)", k, i+1, p, how, k, r.in.name)
 			}
 			// identity: the very object the single constructor call returned (for
 			// a zero-valued construction: the zero value)
